@@ -4,7 +4,6 @@ import (
 	"go/constant"
 	"go/token"
 	"go/types"
-	"strings"
 
 	"golang.org/x/tools/go/ssa"
 
@@ -88,62 +87,7 @@ func checkVoteFunc(c *core.Ctx, sp voteSpec) {
 		c.Decide(ok, "C25.current-validators", fn, "pool = GetPeerPoolMap(native, GetView(native))", c.P.Rel(lp.Range.Pos()), "")
 	}
 	// derived address of the iterated peer
-	derivedAddr := func(lp eng.MapLoop) func(ssa.Value) bool {
-		var chain func(v ssa.Value, depth int) bool
-		chain = func(v ssa.Value, depth int) bool {
-			cl, idx := ir.CallOf(v)
-			if cl == nil {
-				// through an address-taken local
-				if al, ok := ir.Strip(v).(*ssa.Alloc); ok {
-					if sv := ir.SingleStore(al); sv != nil {
-						cl, idx = ir.CallOf(sv)
-					}
-				}
-			}
-			if cl == nil {
-				return false
-			}
-			if !ir.CalleeIs(cl, afp) {
-				// a module helper that derives the address from its argument: every error-free return qualifies
-				h := cl.Common().StaticCallee()
-				if depth > 2 || h == nil || len(h.Blocks) == 0 || h.Pkg == nil || h.Pkg.Pkg == nil || !strings.HasPrefix(h.Pkg.Pkg.Path(), ir.Mod) {
-					return false
-				}
-				if idx < 0 {
-					idx = 0
-				}
-				defer ir.BindParams(h, cl.Common().Args)()
-				n := 0
-				for _, b := range h.Blocks {
-					ret, isRet := b.Instrs[len(b.Instrs)-1].(*ssa.Return)
-					if !isRet || idx >= len(ret.Results) {
-						continue
-					}
-					if last := ret.Results[len(ret.Results)-1]; len(ret.Results) > 1 && last.Type().String() == "error" {
-						if k, isK := last.(*ssa.Const); !isK || !k.IsNil() {
-							continue // error return: the caller must not use the address (checked by the err==nil rules)
-						}
-					}
-					if !chain(ret.Results[idx], depth+1) {
-						return false
-					}
-					n++
-				}
-				return n > 0
-			}
-			pk, _ := ir.CallOf(cl.Common().Args[0])
-			if pk == nil || ir.CalleeObj(pk) == nil || ir.CalleeObj(pk).Name() != "DeserializePublicKey" {
-				return false
-			}
-			hx, _ := ir.CallOf(pk.Common().Args[0])
-			if hx == nil || !ir.IsPkgFunc(hx, "encoding/hex", "DecodeString") {
-				return false
-			}
-			ex, ok := ir.Strip(hx.Common().Args[0]).(*ssa.Extract)
-			return ok && ex.Tuple == ssa.Value(lp.Next) && ex.Index == 1
-		}
-		return func(v ssa.Value) bool { return chain(v, 0) }
-	}
+	derivedAddr := func(lp eng.MapLoop) func(ssa.Value) bool { return derivedPeerAddr(afp, lp.Next) }
 	consensusStatus, _ := c.P.Const(pkNM, "ConsensusStatus")
 	statusGuard := eng.NamedGuard{Name: "v.Status == ConsensusStatus", G: func(cd ir.Cond) (bool, bool) {
 		b, ok := cd.V.(*ssa.BinOp)
